@@ -465,6 +465,13 @@ def defects(rnd, rows):
     yield "first-d-row-not-format", [["D", "Header", "1"]] + rows, 0
     yield "unknown-format", with_row(0, ["D", "Format", "xml"]), 0
     yield "empty-format", with_row(0, ["D", "Format", ""]), 0
+    # letters that merely look like, or fold to, the letters of a known name are not a case variant of it
+    for alike in ("\ufb01xed", "c\u017fv", "od\u017f", "del\u0131m\u0131ted", "\uff23\uff33\uff36", "exce\u217c"):
+        yield "format-lookalike:" + alike, with_row(0, ["D", "Format", alike]), 0
+    yield "property-name-lookalike", rows[:1] + [["D", "allowed character\u017f", "0..."]] + rows[1:], 1
+    yield "property-name-lookalike", rows[:1] + [["D", "\uff28eader", "1"]] + rows[1:], 1
+    yield "row-marker-lookalike", rows[:1] + [["\uff24", "Header", "1"]] + rows[1:], 1
+    yield "empty-mark-lookalike", mod(f_idx[0], 3, "\uff38"), f_idx[0]
     for i in d_idx:
         yield "format-twice", rows[:i + 1] + [["D", "Format", fmt]] + rows[i + 1:], i + 1
         yield "empty-property-name", rows[:i + 1] + [["D", "", "x"]] + rows[i + 1:], i + 1
